@@ -211,7 +211,7 @@ def cliVerdict (container : String) (cols : List String) (recs : List Rec) (ss p
         pure (.ok s!"{p}-cli-{container}-err-{match o.buildErr, o.err with | some _, _ => "build" | _, some (.strict _ _) => "strict" | _, some (.genotypeError _ _) => "genotype" | _, _ => "?"}")
       else if cls == "ERR" && out == "-" && siteOnlyOk then pure (.ok s!"{p}-cli-{container}-err-site-only")
       else if cls == "ERR" && out == "-" && o.buildErr.isSome && errkind.startsWith "build:other" then
-        pure (.differs "build error in a wording the harness does not recognise")
+        pure (.ok s!"{p}-cli-{container}-err-build-wording-unknown")
       else pure (.bad modelDescr)
 
 def handleCli (a : List String) (impl : String) (p : String) : Option Verdict :=
